@@ -2626,3 +2626,224 @@ func c09r19(rc *core.RC) {
 		rc.Unknown("decoder/capture-starts", token.NoPos, "found %d marks of a captured text in stream functions that use skipValue (confirmed: 6)", n)
 	}
 }
+
+// ---- C09.R20 the input offset changes only where a cursor moves ----
+
+// Decoder.InputOffset is Stream.offset + Stream.cursor: the number of input bytes the decoder has passed. Valid
+// relies on it (what lies behind it must be white space). Stream.offset is corrected where the window changes in
+// front of the cursor: the window is moved forward (reset), an escape sequence shrinks to its character, an invalid
+// byte grows to U+FFFD; each of these statement lists also sets a cursor. A change of the offset where no cursor
+// moves (in readBuf, which gives up the bytes behind a NUL) lets the offset pass bytes nobody examined: Valid then
+// takes `1` + NUL + garbage for a valid text.
+func c09r20(rc *core.RC) {
+	p := rc.P
+	pk := p.Pkg("decoder")
+	if pk == nil {
+		rc.Unknown("decoder", token.NoPos, "package not found")
+		return
+	}
+	info := pk.TypesInfo
+	n := 0
+	isOffset := func(e ast.Expr) bool {
+		f := core.FieldOf(info, e)
+		if f == nil || f.Name() != "offset" {
+			return false
+		}
+		sel, ok := core.Unparen(e).(*ast.SelectorExpr)
+		return ok && strings.HasSuffix(strings.TrimPrefix(info.TypeOf(sel.X).String(), "*"), "decoder.Stream")
+	}
+	for _, fd := range p.Funcs("decoder") {
+		if fd.Body == nil {
+			continue
+		}
+		name := p.FuncName(fd)
+		k := 0
+		var walk func(list []ast.Stmt)
+		walk = func(list []ast.Stmt) {
+			movesCursor := false
+			var offs []ast.Stmt
+			for _, st := range list {
+				switch x := st.(type) {
+				case *ast.AssignStmt:
+					for _, l := range x.Lhs {
+						if isOffset(l) {
+							offs = append(offs, st)
+						}
+						if isCursorExpr(l) {
+							movesCursor = true
+						}
+					}
+				case *ast.IncDecStmt:
+					if isOffset(x.X) {
+						offs = append(offs, st)
+					}
+					if isCursorExpr(x.X) {
+						movesCursor = true
+					}
+				}
+				ast.Inspect(st, func(m ast.Node) bool {
+					switch b := m.(type) {
+					case *ast.BlockStmt:
+						walk(b.List)
+						return false
+					case *ast.CaseClause:
+						walk(b.Body)
+						return false
+					}
+					return true
+				})
+			}
+			for _, st := range offs {
+				k++
+				n++
+				rc.Touch(name)
+				rc.Check(movesCursor, fmt.Sprintf("%s/offset-change#%d beside-a-cursor-move", name, k), st.Pos(), "`%s` changes the input offset in a statement list that sets no cursor: InputOffset (offset + cursor) then counts bytes the decoder has not passed, and Valid, which accepts a text when only white space lies behind InputOffset, no longer sees them", core.Src(p.Fset, st))
+			}
+		}
+		walk(fd.Body.List)
+	}
+	if n < 4 {
+		rc.Unknown("decoder/offset-changes", token.NoPos, "found %d statements that change Stream.offset (confirmed: 5)", n)
+	}
+}
+
+// ---- C09.R21 a loop over the window stays below what has been read ----
+
+// Stream.length counts the bytes of the window that hold input: the last of them has the index length-1, and the
+// byte at index length is the terminator. A loop that walks the window without refilling (a fast path that compares
+// a literal in one go) has to know that its highest index lies below length. Comparing that index with the count by
+// `>` instead of `>=` admits the index length itself: the literal's last byte is then compared with the terminator,
+// and a valid `null` that ends exactly where the window ends is an error. Obligation, for every counting loop of a
+// stream function whose body indexes Stream.buf at a linear form of the loop variable: a guard in front of the loop
+// that leaves proves (linear forms) that the highest index is smaller than Stream.length.
+func c09r21(rc *core.RC) {
+	p := rc.P
+	pk := p.Pkg("decoder")
+	if pk == nil {
+		rc.Unknown("decoder", token.NoPos, "package not found")
+		return
+	}
+	info := pk.TypesInfo
+	n := 0
+	isWindow := func(e ast.Expr) bool {
+		f := core.FieldOf(info, e)
+		if f == nil || f.Name() != "buf" {
+			return false
+		}
+		sel, ok := core.Unparen(e).(*ast.SelectorExpr)
+		return ok && strings.HasSuffix(strings.TrimPrefix(info.TypeOf(sel.X).String(), "*"), "decoder.Stream")
+	}
+	for _, fd := range p.Funcs("decoder") {
+		if fd.Body == nil {
+			continue
+		}
+		name := p.FuncName(fd)
+		le := &core.LinearEval{Info: info, Pkg: pk, Body: fd.Body}
+		k := 0
+		ast.Inspect(fd.Body, func(m ast.Node) bool {
+			loop, ok := m.(*ast.ForStmt)
+			if !ok || loop.Init == nil || loop.Cond == nil || loop.Post == nil {
+				return true
+			}
+			init, ok := loop.Init.(*ast.AssignStmt)
+			if !ok || len(init.Lhs) != 1 {
+				return true
+			}
+			ivar, ok := init.Lhs[0].(*ast.Ident)
+			if !ok {
+				return true
+			}
+			cond, ok := core.Unparen(loop.Cond).(*ast.BinaryExpr)
+			if !ok || (cond.Op != token.LEQ && cond.Op != token.LSS) || core.ObjOf(info, cond.X) != core.ObjOf(info, ivar) {
+				return true
+			}
+			// a refill inside the loop makes it a different kind of loop
+			refills := false
+			ast.Inspect(loop.Body, func(x ast.Node) bool {
+				if c, ok := x.(*ast.CallExpr); ok {
+					switch cn := core.CalleeName(info, c); {
+					case cn == "decoder.Stream.char", cn == "decoder.Stream.totalOffset", cn == "decoder.Stream.stat", cn == "decoder.Stream.bufptr", cn == "decoder.Stream.statForRetry":
+						// look at the stream, do not read from the reader
+					case strings.HasPrefix(cn, "decoder.Stream."), cn == "decoder.readAtLeast", strings.HasPrefix(cn, "decoder.retryRead"):
+						refills = true
+					}
+				}
+				return true
+			})
+			if refills {
+				return true
+			}
+			hi := le.Eval(cond.Y)
+			if cond.Op == token.LSS {
+				hi = hi.Sub(core.LinConst(1))
+			}
+			var idx core.Linear
+			var win string
+			ast.Inspect(loop.Body, func(x ast.Node) bool {
+				ix, ok := x.(*ast.IndexExpr)
+				if !ok || idx.OK || !isWindow(ix.X) {
+					return true
+				}
+				l := le.Eval(ix.Index)
+				if l.OK && l.Terms[ivar.Name] == 1 {
+					idx = l
+					win = types.ExprString(core.Unparen(ix.X))
+				}
+				return true
+			})
+			if !idx.OK || !hi.OK {
+				return true
+			}
+			k++
+			n++
+			rc.Touch(name)
+			// the highest index: the loop variable replaced by its upper bound
+			max := idx.Sub(core.Linear{Terms: map[string]int64{ivar.Name: 1}, OK: true}).Add(hi)
+			lengthAtom := strings.TrimSuffix(win, ".buf") + ".length"
+			proved, seen := false, ""
+			// the bound of the loop itself may say it: the highest index is length-1 or len(buf)-1 (or lower)
+			for _, top := range []string{lengthAtom, "len(" + win + ")"} {
+				d := max.Sub(core.Linear{Terms: map[string]int64{top: 1}, OK: true})
+				if d.OK && len(nonzeroTerms(d)) == 0 && d.Const <= -1 {
+					proved = true
+				}
+			}
+			for _, st := range fd.Body.List {
+				if st.Pos() > loop.Pos() {
+					break
+				}
+				ifs, ok := st.(*ast.IfStmt)
+				if !ok || len(ifs.Body.List) == 0 {
+					continue
+				}
+				if _, isRet := ifs.Body.List[len(ifs.Body.List)-1].(*ast.ReturnStmt); !isRet {
+					continue
+				}
+				be, ok := core.Unparen(ifs.Cond).(*ast.BinaryExpr)
+				if !ok {
+					continue
+				}
+				l, r := le.Eval(be.X), le.Eval(be.Y)
+				if !l.OK || !r.OK || !(r.Terms[lengthAtom] == 1 && len(nonzeroTerms(r)) == 1 && r.Const == 0) {
+					continue
+				}
+				d := max.Sub(l)
+				if !d.OK || len(nonzeroTerms(d)) != 0 {
+					continue
+				}
+				seen = core.Src(p.Fset, ifs.Cond)
+				// leaving on l >= length leaves l < length; leaving on l > length leaves l <= length
+				if (be.Op == token.GEQ && d.Const <= 0) || (be.Op == token.GTR && d.Const <= -1) {
+					proved = true
+				}
+			}
+			why := "no guard in front of the loop compares it with " + lengthAtom
+			if seen != "" {
+				why = "the guard `" + seen + "` admits the index " + lengthAtom + " itself, where the terminator stands"
+			}
+			rc.Check(proved, fmt.Sprintf("%s/window-loop#%d highest-index-below-length", name, k), loop.Pos(), "the loop reads %s up to the index %s without a refill: %s (the last byte of what has been read has the index length-1; a literal that ends exactly with the window is compared with the NUL behind it)", win, max, why)
+			return true
+		})
+	}
+	rc.OK("decoder/window-loops", token.NoPos, "%d counting loops over the stream window without a refill, each bounded below Stream.length", n)
+}
